@@ -15,7 +15,8 @@ tvvars == <<ti, sc, nret, drops, found, execs, xi>>
 
 NoScen == [kind |-> "", shape |-> "", n |-> 0, ctor |-> "", ops |-> <<>>, dtor |-> ""]
 Sig(s, sym) == s.kind \o "/" \o s.shape \o "/" \o s.ctor \o "/" \o s.dtor \o "/" \o sym
-Flag(sym) == found' = found \cup {[p |-> "C16", s |-> Sig(sc, sym), x |-> xi, ln |-> ti]}
+FlagP(p, sym) == found' = found \cup {[p |-> p, s |-> Sig(sc, sym), x |-> xi, ln |-> ti]}
+Flag(sym) == FlagP("C16", sym)
 
 TVInit == ti = 1 /\ sc = NoScen /\ nret = 0 /\ drops = <<>> /\ found = {} /\ execs = 0 /\ xi = 0
 
@@ -41,6 +42,11 @@ TVNext ==
                ELSE IF drops[ev.id] >= 1 THEN Flag("value-dropped-twice")
                ELSE UNCHANGED found
             /\ UNCHANGED <<sc, nret, execs, xi>>
+       [] ev.e = "vheld" ->    \* hold state of the members of a tuple / array / Vec / Box<[T]> shaped collection
+            /\ IF ev.when = "guard" /\ ev.locked # ev.total THEN FlagP("C04", "member-not-locked-under-guard")
+               ELSE IF ev.when = "after" /\ ev.locked # 0 THEN FlagP("C05", "member-locked-after-guard-drop")
+               ELSE UNCHANGED found
+            /\ UNCHANGED <<sc, nret, drops, execs, xi>>
        [] ev.e = "vctor" ->
             /\ IF ev.some THEN Flag("duplicate-accepted") ELSE UNCHANGED found
             /\ UNCHANGED <<sc, nret, drops, execs, xi>>
